@@ -473,7 +473,14 @@ class ReadAndProcessOnTheFly:
         # is currently not open for reading
         # a multi-byte character that is only partly written must not raise:
         # it can only be part of a line that is not terminated yet
-        kwargs = {} if "b" in self.read_mode else {"errors": "surrogateescape"}
+        # a "\r" is an ordinary blank for the readers: with newline
+        # translation a "\r" at the end of the visible part would end a line
+        # and tell() would return an opaque cookie instead of a byte offset
+        kwargs = (
+            {}
+            if "b" in self.read_mode
+            else {"errors": "surrogateescape", "newline": "\n"}
+        )
         try:
             with open(
                 self.file_path, self.read_mode, **kwargs
